@@ -162,7 +162,8 @@ Section Endpoint.
 
   (** IkeSaController.process_acquire *)
   Definition acquire (ep : endpoint) (my peer : Z) (tsi tsr : ts) (index : Z) : endpoint :=
-    let found := find (fun x => Z.eqb (my_addr (co (inner P (snd x)))) my && Z.eqb (peer_addr (co (inner P (snd x)))) peer)
+    let found := find (fun x => Z.eqb (my_addr (co (inner P (snd x)))) my && Z.eqb (peer_addr (co (inner P (snd x)))) peer
+                                && acquire_usable (state P (snd x)))
                       (table ep) in
     let r := match found with
              | Some (cid, s) => Some (ep, cid, s)
